@@ -327,3 +327,7 @@ package cert
 //@   given len(extKeyUsages) == 6 && (forall i in [0, 6) :: extKeyUsages[i] != nil && oidv(extKeyUsages[i]) == specEkuOid(i))
 //@   ensures @C07 ok == (k < 6)
 //@   ensures @C07 ok ==> oid != nil && oidv(oid) == specEkuOid(k)
+
+//@ func ReadPem returns (res, err)
+//@   props C17 C14
+//@   unverified loop over pem.Decode with ParsePKCS8PrivateKey (C17) not yet under contract
